@@ -2642,6 +2642,16 @@ impl VmGreenThread {
             }
         }
         if self.gray_stack.is_empty() {
+            // The write barrier does not cover the operand stack: a value popped or loaded out
+            // of a not-yet-scanned object since the root scan is reachable only from the stack.
+            // Rescan the roots and keep marking if that found anything new.
+            for v in self.value_stack.iter() {
+                Self::mark(v, &mut self.gray_stack, self.gc_visited);
+            }
+            Self::mark(&self.string_operand1, &mut self.gray_stack, self.gc_visited);
+            Self::mark(&self.string_operand2, &mut self.gray_stack, self.gc_visited);
+        }
+        if self.gray_stack.is_empty() {
             self.gc_state = GcState::Sweeping { index: 0 };
         }
     }
